@@ -114,6 +114,25 @@ theorem stitch_unshared_edge_kept (lines : List Ln) (l : Ln) (h : cnt l lines = 
 example : findBoundaryLines (stitchLines [(⟨0,0⟩, ⟨1,0⟩, ⟨1,1⟩), (⟨0,0⟩, ⟨1,1⟩, ⟨0,1⟩)]) =
     [(⟨0,0⟩, ⟨1,0⟩), (⟨1,0⟩, ⟨1,1⟩), (⟨1,1⟩, ⟨0,1⟩), (⟨0,1⟩, ⟨0,0⟩)] := by decide +kernel
 
+/-- the ear-cut triangulation (real output) of the 6×6 square with collinear edge vertices and the
+holes `(5,5),(3,3),(5,3)` and `(4,1),(4,2),(3,2),(3,1)` — open finding C10-K1 -/
+def tJunctionTris : List Tri :=
+  [(⟨5,3⟩,⟨6,0⟩,⟨4,2⟩), (⟨4,2⟩,⟨3,2⟩,⟨5,3⟩), (⟨5,3⟩,⟨5,5⟩,⟨6,0⟩), (⟨6,0⟩,⟨4,1⟩,⟨4,2⟩), (⟨3,2⟩,⟨0,3⟩,⟨5,3⟩),
+   (⟨5,5⟩,⟨6,6⟩,⟨6,0⟩), (⟨6,0⟩,⟨0,0⟩,⟨4,1⟩), (⟨3,2⟩,⟨3,1⟩,⟨0,3⟩), (⟨5,5⟩,⟨0,3⟩,⟨6,6⟩), (⟨0,0⟩,⟨3,1⟩,⟨4,1⟩),
+   (⟨3,1⟩,⟨0,0⟩,⟨0,3⟩), (⟨5,5⟩,⟨3,3⟩,⟨0,3⟩), (⟨0,3⟩,⟨0,6⟩,⟨6,6⟩)]
+
+/-- [T] `stitch_t_junction_witness` (open finding C10-K1, reproduced on the real code): in a
+triangulation that is not conforming — the edge `(0,3)-(5,3)` of one triangle passes through the
+hole vertex `(3,3)`, its neighbour across has the edge `(0,3)-(3,3)` — no two of these lines are
+identical, so `find_boundary_lines` keeps the long interior edge and the short interior edge as
+"boundary" lines (13 lines instead of the 15 boundary edges of the polygon); the rings built from
+them do not have the polygon's area. -/
+theorem stitch_t_junction_witness :
+    cnt (⟨0,3⟩, ⟨5,3⟩) (findBoundaryLines (stitchLines tJunctionTris)) = 1 ∧
+    cnt (⟨0,3⟩, ⟨3,3⟩) (findBoundaryLines (stitchLines tJunctionTris)) = 1 ∧
+    (findBoundaryLines (stitchLines tJunctionTris)).length = 13 := by
+  decide +kernel
+
 /-! ### MonoPoly point location ↔ between the chains -/
 
 /-- [T] outside the bounding box of the chains (where the code returns early) the specification
